@@ -51,9 +51,9 @@ def guard_after_arg_store(s):
 
 
 def guard_after_return(s):
-    """F: ishermitian answers before the guard is reached (early return for a zero tolerance placed in front)."""
+    """F: ishermitian answers a 1 x n argument before the guard is reached (early return placed in front)."""
     return sub1(s, r"(    r, c = A\.shape\n\n)(    if r != c:\n        raise ValueError\(\"Cannot test whether a non-square matrix is Hermitian\.\"\)\n)",
-                lambda m: m.group(1) + "    if tol is None:\n        return bool(np.allclose(A, A))\n" + m.group(2))
+                lambda m: m.group(1) + "    if r == 1:\n        return True\n" + m.group(2))
 
 
 def shared_helper(s):
@@ -117,6 +117,94 @@ def new_public_function(s):
     return s + '\n\ndef tensor_mode_size(T, mode):\n    if mode not in (0, 1, 2):\n        raise ValueError("mode must be 0, 1, or 2")\n    return T.shape[mode]\n'
 
 
+def herm_guard_upper_only(s):
+    """F: tridiagonalize's Hermitian guard compares the strict upper triangle only (np.triu_indices): a matrix that is
+    Hermitian off the diagonal with a non-real diagonal passes."""
+    return sub1(s, r"    if not np\.allclose\(A, A_H, atol=1e-10\):\n",
+                lambda m: "    iu = np.triu_indices(r, 1)\n    if not np.allclose(A[iu], A_H[iu], atol=1e-10):\n")
+
+
+def herm_guard_triu_mask(s):
+    """F: same weakening spelled with np.triu(., 1) masks."""
+    return sub1(s, r"    if not np\.allclose\(A, A_H, atol=1e-10\):\n",
+                lambda m: "    if not np.allclose(np.triu(A, 1), np.triu(A_H, 1), atol=1e-10):\n")
+
+
+def herm_guard_upper_with_diag(s):
+    """S: upper triangle INCLUDING the diagonal is a full Hermitian test (equivalent predicate)."""
+    return sub1(s, r"    if not np\.allclose\(A, A_H, atol=1e-10\):\n",
+                lambda m: "    iu = np.triu_indices(r)\n    if not np.allclose(A[iu], A_H[iu], atol=1e-10):\n")
+
+
+def herm_guard_row_subset(s):
+    """exit 2 expected: Hermitian test on an index subset the evaluator does not model (first row only)."""
+    return sub1(s, r"    if not np\.allclose\(A, A_H, atol=1e-10\):\n",
+                lambda m: "    if not np.allclose(A[0, :], A_H[0, :], atol=1e-10):\n")
+
+
+def zero_shortcut_hoisted(s):
+    """F: ishermitian's zero-matrix shortcut hoisted above the square guard (a non-square zero matrix is answered True)."""
+    s = sub1(s, r"    # Normalize by maximum absolute value\n    max_abs = np\.max\(np\.abs\(A\)\)\n    if max_abs == 0:\n        return True  # Zero matrix is Hermitian\n", "")
+    return sub1(s, r"(    r, c = A\.shape\n\n)(    if r != c:\n        raise ValueError\(\"Cannot test whether)",
+                lambda m: "    max_abs = np.max(np.abs(A))\n    if max_abs == 0:\n        return True\n\n" + m.group(1) + m.group(2))
+
+
+def qgmres_early_ns_removed(s):
+    """F: the square test in front of the preconditioning block is removed (with left_lu a wide system reaches the LU)."""
+    return sub1(s, r"        if shape_A is not None and \(len\(shape_A\) != 2 or shape_A\[0\] != shape_A\[1\]\):", "        if False:")
+
+
+def qgmres_prec_guard_removed(s):
+    """F: unknown preconditioner names are silently treated as 'none' again."""
+    return sub1(s, r'        if prec not in \("none", "left_lu"\):', "        if False:")
+
+
+def qgmres_late_ns_removed(s):
+    """F: the second square test (component-plane input) is removed."""
+    return sub1(s, r"        if A0\.shape\[0\] != A0\.shape\[1\]:", "        if False:")
+
+
+def schur_variant_guard_weakened(s):
+    """F: quaternion_schur_unified accepts the unknown name 'foo'."""
+    return sub1(s, r'    if variant not in \("none", "rayleigh", "implicit", "aed", "ds"\):',
+                '    if variant not in ("none", "rayleigh", "implicit", "aed", "ds", "foo"):')
+
+
+def schur_shift_guard_after_work(s):
+    """exit 2 expected: quaternion_schur checks `shift` only after the Hessenberg reduction (pure work on copies, so D1 still
+    holds for 2x2), but the in-domain 3x3 run cannot be interpreted through the reduction up to the moved guard."""
+    g = ('    if shift not in ("rayleigh", "wilkinson", "double"):\n        raise ValueError(\n'
+         '            f"Unknown shift \'{shift}\' (expected \'rayleigh\', \'wilkinson\' or \'double\')"\n        )\n')
+    assert s.count(g) == 1
+    s = s.replace(g, "")
+    key = "    P0, H = hessenbergize(A)\n    H = check_hessenberg(H)\n"
+    i = s.index(key)                      # first occurrence: quaternion_schur
+    return s[:i] + key + g + s[i + len(key):]
+
+
+def pinh_guards_after_fastpath(s):
+    """F: power_iteration_nonhermitian validates only after the Hermitian fast path (the pre-fix behaviour)."""
+    return sub1(s, r"    if \(\n        not isinstance\(A, np\.ndarray\)\n        or A\.ndim != 2\n        or A\.shape\[0\] != A\.shape\[1\]\n        or A\.dtype != np\.quaternion\n    \):",
+                lambda m: "    if not _is_hermitian_quat(A) and (\n        not isinstance(A, np.ndarray)\n        or A.ndim != 2\n        or A.shape[0] != A.shape[1]\n        or A.dtype != np.quaternion\n    ):")
+
+
+def pinh_format_guard_removed(s):
+    """F: eigenvalue_format is no longer validated."""
+    return sub1(s, r'    if eigenvalue_format not in \("complex", "quaternion"\):', "    if False:")
+
+
+def ctor_guard_removed(s):
+    """F: RandomizedSketchProjectPseudoinverse.__init__ no longer rejects unknown column_solver names."""
+    return sub1(s, r'(class RandomizedSketchProjectPseudoinverse(?:.*\n)*?        self\.column_solver = .*\n)        if self\.column_solver not in \("qr", "spd"\):',
+                lambda m: m.group(1) + "        if False:")
+
+
+def ctor_guard_on_raw_value(s):
+    """S: the constructor guard tests the lower-cased local before the assignment (equivalent)."""
+    return sub1(s, r'(class HybridRSPNewtonSchulz(?:.*\n)*?)        self\.column_solver = column_solver\.lower\(\) if isinstance\(column_solver, str\) else "qr"\n        if self\.column_solver not in \("qr", "spd"\):\n',
+                lambda m: m.group(1) + '        cs = column_solver.lower() if isinstance(column_solver, str) else "qr"\n        if not (cs == "qr" or cs == "spd"):\n')
+
+
 MUTANTS = {
     "guard_after_X0": ("quatica/solver.py", guard_after_X0, "S"),
     "guard_after_sketch": ("quatica/solver.py", guard_after_sketch, "S"),
@@ -133,6 +221,20 @@ MUTANTS = {
     "exotic_guard": ("quatica/utils.py", exotic_guard, "E2"),
     "guard_after_try_return": ("quatica/decomp/hessenberg.py", guard_after_try_return, "F"),
     "new_public_function": ("quatica/tensor.py", new_public_function, "E2 (thorough)"),
+    "herm_guard_upper_only": ("quatica/decomp/tridiagonalize.py", herm_guard_upper_only, "F"),
+    "herm_guard_triu_mask": ("quatica/decomp/tridiagonalize.py", herm_guard_triu_mask, "F"),
+    "herm_guard_upper_with_diag": ("quatica/decomp/tridiagonalize.py", herm_guard_upper_with_diag, "S"),
+    "herm_guard_row_subset": ("quatica/decomp/tridiagonalize.py", herm_guard_row_subset, "E2"),
+    "zero_shortcut_hoisted": ("quatica/utils.py", zero_shortcut_hoisted, "F"),
+    "qgmres_early_ns_removed": ("quatica/solver.py", qgmres_early_ns_removed, "F"),
+    "qgmres_prec_guard_removed": ("quatica/solver.py", qgmres_prec_guard_removed, "F"),
+    "qgmres_late_ns_removed": ("quatica/solver.py", qgmres_late_ns_removed, "F"),
+    "schur_variant_guard_weakened": ("quatica/decomp/schur.py", schur_variant_guard_weakened, "F"),
+    "schur_shift_guard_after_work": ("quatica/decomp/schur.py", schur_shift_guard_after_work, "E2"),
+    "pinh_guards_after_fastpath": ("quatica/utils.py", pinh_guards_after_fastpath, "F"),
+    "pinh_format_guard_removed": ("quatica/utils.py", pinh_format_guard_removed, "F"),
+    "ctor_guard_removed": ("quatica/solver.py", ctor_guard_removed, "F"),
+    "ctor_guard_on_raw_value": ("quatica/solver.py", ctor_guard_on_raw_value, "S"),
 }
 
 
